@@ -18,6 +18,10 @@ func conform(h *rt.H, c *codec, in []byte) {
 	case ref.OK:
 		h.Assert("accepted", err == nil)
 		h.Assert("value", ev.Equal(got, want))
+		if err == nil {
+			// C09: the parser's own event stream obeys the visitor contract
+			h.Assert("contract", ev.Contract(rec.Events) == "")
+		}
 	case ref.Unsupported:
 		h.Assert("refused", err != nil)
 		h.Assert("no-other-value", len(got) <= len(want) && ev.Equal(got, want[:n]))
